@@ -65,6 +65,7 @@ int main(int argc, char** argv) {
   int spare = atoi(argv[1]);
   vh_parse(argv[2]);
   if (vh_script.nthreads > 2) { fprintf(stderr, "spsc: exactly one producer thread\n"); return 2; }
+  VH_DIRTY(fifo);
   if (!spsc_fifo_init(&fifo)) return 2;
   name_node(fifo.head); /* the initial stub is n1 */
   vr_reg(&fifo.head, 8, "head");
